@@ -86,13 +86,23 @@ def check_then_fill(res, prog):
         return
     fb = fcalls[0][0]
     facts = panics.dominating_facts(f, fb)
-    ok_none = any(r[0] == 'true' and is_call(r[1], 'is_none') and 'guard' in show(r[1]) for r, gd, s in facts)
+    def empty_slot(r):
+        """the slot is known to be None: `guard.is_none()`, or the None edge of a match / if-let on `guard.as_ref()` / `*guard`"""
+        if r[0] == 'true' and is_call(r[1], 'is_none') and 'guard' in show(r[1]):
+            return True
+        if r[0] == 'false' and is_call(r[1], 'is_some') and 'guard' in show(r[1]):
+            return True
+        if r[0] == 'switch' and r[2] in (0, ('not', 1)) and isinstance(r[1], tuple) and r[1][0] == 'discr':
+            sx = show(f.expand(r[1]))
+            return 'guard' in sx and ('Option::as_ref' in sx or 'Deref>::deref' in sx or 'DerefMut>::deref_mut' in sx)
+        return False
+    ok_none = any(empty_slot(r) for r, gd, s in facts)
     res.rule('C12.2', 1)
     if not ok_none or not f.dominates(gdef_b, fb) or not f.dominates(lock_b, gdef_b):
         res.violation('C12.2', 'C12.2|order', f, fcalls[0][1].get('line'), 'f() is not dominated by (lock acquired) and (guard.is_none() == true)')
     # the is_none test itself happens with the guard held
     for r, gd, s in facts:
-        if r[0] == 'true' and is_call(r[1], 'is_none') and 'guard' in show(r[1]):
+        if empty_slot(r):
             if not f.dominates(gdef_b, gd):
                 res.violation('C12.2', 'C12.2|test-before-lock', f, f.blocks[gd]['t'].get('line'), 'is_none() is tested before the lock is taken')
     # store: `*guard = Some(Arc::new(..))` dominated by the f() call
